@@ -1,5 +1,5 @@
-(** C01 — concrete witnesses.  One class is reproducible on raven's current
-    code (missing boundary); the result-map defect is still in the code but
+(** C01 — concrete witnesses.  No class is reproducible on raven's current
+    code any more; the result-map defect is still in the code but
     needs a store whose UIDNEXT lags behind, which no operation produces any
     more (raven 02d2f67, 30e4be8): it is witnessed on such a world, not on a
     history.  The repaired behaviours are kept as regression examples. *)
@@ -15,20 +15,6 @@ Definition clk0 : nat -> Z := fun _ => 100.
 Definition p_plain : parsed := mkParsed true false 3 Single.
 Definition p_noparse : parsed := mkParsed false false 2 Single.
 Definition p_nob : parsed := mkParsed true false 5 MultiNoBoundary.
-
-Lemma refuted_noboundary :
-  exists w folder rs p clk, classify w folder rs p clk = Some CNoBoundary /\ ~ spec_C01 w folder rs p clk.
-Proof.
-  exists (w0 []), INBOX, [U1], p_nob, clk0. split; [vm_compute; reflexivity|].
-  unfold spec_C01.
-  remember (lmtp_data (w0 []) INBOX [U1] p_nob clk0) as res eqn:E. vm_compute in E. subst res.
-  intros (_ & _ & _ & H). inversion H as [|c a rc ra Hp _]; subst. clear H.
-  unfold position_ok in Hp. simpl in Hp.
-  destruct Hp as (k & u' & m & l & Hk & Hg & Hl & _ & _ & Hr & _).
-  vm_compute in Hk. injection Hk as <-. vm_compute in Hg. injection Hg as <-.
-  unfold links_of in Hl. vm_compute in Hl. injection Hl as <-.
-  vm_compute in Hr. discriminate.
-Qed.
 
 (** ---- the result map, on a world whose INBOX has UIDNEXT behind ----------------- *)
 
